@@ -96,8 +96,8 @@ PROPERTY_META = {}  # pid -> dict(level_text, unproved_clauses, assumptions, rep
 # refuted one as a violation of P (naming the failed obligation).
 DEPENDS = {
     "C02": ["C01", "C04"],
-    "C03": ["C01", "C02", "C04", "C05", "C09"],
-    "C05": ["C01", "C04", "C09"],
+    "C03": ["C01", "C02", "C04", "C05", "C09", "C18"],
+    "C05": ["C01", "C04", "C09", "C18"],
     "C06": ["C01"],
     "C08": ["C01", "C05", "C06", "C09", "C11"],
     "C09": ["C01", "C05"],
@@ -142,12 +142,16 @@ def degraded_units(results, pids):
                   and all(o["verdict"] == "discharged" for o in r.obligations)
                   and not any("skipped" in o["name"] for o in r.obligations)]
     for r in results:
-        if r.status != "undecided" or U.UNITS[r.name].kind == "bounded" or "vacuity guard" in (r.message or ""):
+        if r.status != "undecided":
             continue
+        if "vacuity guard" in (r.message or "") and "obligations generated" not in (r.message or ""):
+            continue          # a contradictory-assumptions alarm is never degraded (too few obligations after an undecided path is)
         u = U.UNITS[r.name]
         uf = set(map(tuple, u.functions))
         cover = []
         for b in ok_bounded:
+            if b.name == r.name:
+                continue
             bu = U.UNITS[b.name]
             bf = set(map(tuple, bu.functions))
             if (bf and uf and bf & uf) or (not bf and b.name.startswith("system.probe[") and set(bu.props) & set(u.props) & set(pids)):
